@@ -9,7 +9,7 @@ CFG = {
     'widen_runs': 2,
     'rule': 'every exchange goes through the real HTTP stack (router, middleware chain of httpapi.setupRouter, v1 and v2 handlers) over an '
             'in-process ClusterNode with fixture collections (rich schema: vamana, flat, nested flat, text, string, stringArray, integer, '
-            'float; schema-less; 4096-dimensional; v1 collections; a collection with an unbuildable product quantizer; planted NaN fields), '
+            'float; schema-less; 4096-dimensional; v1 collections; planted NaN fields), '
             'executed in child processes so that a crash is an observation. Streams: (a) valid requests of every endpoint of both API '
             'versions in JSON and MessagePack, at the documented limits (4096 vectors, searchSize/limit 25/75/100, 10 sort options, plan '
             'limits of a tiny plan: collections, points, point size); (b) structured mutation of EVERY node of 15 valid request bodies '
@@ -32,6 +32,8 @@ CFG = {
                     'CheckCompatibleMap and the index dispatcher (msgpack Decoder.Query) find the same value for an index property: true when '
                     'all intermediate segments are maps (anything else is refused by CheckCompatibleMap), and for empty segments the dispatcher '
                     'sees a map, which castDataToArray refuses before any distance is computed',
+                    'the streams that exercised the repaired defects stay (offset near MaxInt64, v1 requests on v2 collections, NaN alpha, triggerThreshold '
+                    'outside its range, unbuildable product quantizers): they now expect 4xx without effect, resp. 2xx for the offset',
                     'cluster-level refusals are limited to the plan arithmetic (collections, points) modelled in Run_C18.expected; a single node, '
                     'sequential requests'],
     'trusted_extra': ['translator gen/gen_doc_limits.py (regex extraction of binding tags, Validate comparisons and structural facts; exits 3 when a '
@@ -48,15 +50,15 @@ CODES = {
     104: 'a request that passes validation (finite numbers, within plan limits) was answered 4xx',
     105: 'the serving process died (or hung) on a request',
     106: 'a read request (list / get / search) changed the digest of the collections',
-    111: 'v1 handler on a collection without a vectorVamana index named "vector": nil dereference, recovered, 500',
-    112: 'search on a collection whose product quantizer cannot be built (numSubVectors does not divide vectorSize / haversine): 500',
+    111: 'v1 handler panicked on a collection without a vectorVamana index named "vector" (repaired by dc9b10f: 400; a recurrence is a violation)',
+    112: 'search answered 5xx on a collection whose product quantizer cannot be built (creation refuses such quantizers since be5a4ea; a recurrence is a violation)',
     113: 'search with a select path through a scalar / non-numeric segment on an array / below a selected non-map: 500',
-    114: 'search with offset + limit above MaxInt64: slice-bounds panic in a shard goroutine, the process dies',
-    115: 'GET collection whose stored alpha is NaN: 500',
+    114: 'search with offset + limit above MaxInt64 killed the process (repaired by d9d61df; a recurrence is a violation)',
+    115: 'GET collection whose stored alpha is NaN: 500 (NaN refused at creation since 7915fec; a recurrence is a violation)',
     116: 'search whose answer carries a stored NaN/Inf value: 500',
     117: 'MessagePack body nested about a million levels deep: fatal stack overflow, the process dies',
-    121: 'collection creation with alpha outside the documented interval (NaN) accepted',
-    122: 'collection creation with a binary-quantizer triggerThreshold outside the documented range accepted',
+    121: 'collection creation with alpha outside the documented interval (NaN) accepted (repaired by 7915fec; a recurrence is a violation)',
+    122: 'collection creation with a binary-quantizer triggerThreshold outside the documented range accepted (repaired by 6c2a6b8; a recurrence is a violation)',
     123: 'collection creation without the documented-as-required indexSchema accepted',
     201: 'model rejects the request (stricter than the documented limits), the server answered 2xx',
     202: 'model predicts a nil-dereference panic, none was observed',
@@ -69,9 +71,11 @@ LEVEL = {
             '(index, query vector) pair the evaluator of shard/index/search.go hands to a distance function -- through _and, _or and the '
             'filters of vectorFlat / vectorVamana / text leaves -- and every vector the write path extracts has exactly the index dimension '
             '(the hypothesis of C20\'s no-out-of-bounds theorem), ValidateSchema visiting every leaf the evaluator reaches; (2) it satisfies '
-            'every documented bound of the binding tags (published JSON schema), except three bounds that Validate() does not enforce, '
-            'stated as c18_undocumented_gap_* facts; (3) a rejected request performs no cluster call; v1 handlers are panic-free exactly on '
-            'collections that have a vamana index named "vector" (refuted otherwise). All over constants regenerated from the Go sources on '
+            'every documented bound of the binding tags (published JSON schema), except one (indexSchema tagged required but optional: '
+            'c18_undocumented_gap_index_schema_required), and an accepted vector index never carries a product quantizer that cannot be built; '
+            '(3) a rejected request performs no cluster call and no v1 handler panics on any collection. The gaps of the pinned tree (NaN alpha, '
+            'triggerThreshold next to a threshold, unbuildable product quantizer, nil dereference of the v1 handlers) are closed by fix commits; '
+            'the _v0 theorems keep their witnesses against the pinned checks. All over constants regenerated from the Go sources on '
             'every run, with "enforced within documented" discharged by computation. NOT proved: "for all byte strings" -- the JSON / '
             'MessagePack decoders, routing and middleware are validated by structured-mutation and raw-byte streams over the real HTTP stack '
             'of both API versions (status class vs model, digest unchanged on 4xx, no 5xx, process alive).',
